@@ -208,4 +208,6 @@ def with_bigio(cls):
 
     cls.program, cls.oracle, cls.nontrivial, cls.classify, cls.shrink_candidates = program, oracle, nontrivial, classify, shrink_candidates
     cls.obs = set(cls.obs) | {'bigio'}
+    cls.rule = cls.rule + (' PLUS implementation-side-only cases (multi-megabyte files, runs of 150 000 instants at epoch-size '
+                           'instants): sizes the list-based model cannot run, decided by the oracle alone (interval arithmetic / row counts).')
     return cls
